@@ -119,6 +119,7 @@ func mkOffsets(r *rand.Rand, n, block int) []int64 {
 func genIndex(t *Tracer, m *Meta, tier string, seed int64) {
 	r := rand.New(rand.NewSource(seed*633910099 + 12))
 	quick := tier == "quick"
+	var explicitOffs []int64
 	emit := func(keys []string, block int, qs []string) {
 		mode := "rget"
 		if block == 1 {
@@ -128,7 +129,11 @@ func genIndex(t *Tracer, m *Meta, tier string, seed int64) {
 		m.Cases++
 		c := &TrieCase{Keys: keys, Enc: "i64", Opt4: [4]int{2, 2, 2, 2}}
 		_ = c
-		t.Emit(indexEv(keys, mkOffsets(r, len(keys), block), mode, block, qs))
+		offs := explicitOffs
+		if offs == nil {
+			offs = mkOffsets(r, len(keys), block)
+		}
+		t.Emit(indexEv(keys, offs, mode, block, qs))
 		m.Calls += len(qs)
 		if len(keys) >= 2 {
 			m.Distinct++
@@ -172,6 +177,66 @@ func genIndex(t *Tracer, m *Meta, tier string, seed int64) {
 		emit(keys, block, uniq(qs))
 		m.class("family:" + fam)
 		m.class(fmt.Sprintf("block:%d", block))
+	}
+	// the special shapes of the lookup family, indexed: a 257-bit node whose bitmap mimics a
+	// popular 17-bit one; 257-bit nodes thinned by de-duplication (a BLOCK = a key and all its
+	// one-byte extensions, so the shared block offset plays the part of the repeated value);
+	// a full 257-bit node; counts on word boundaries
+	withKeys := func(keys []string, limit int) []string {
+		qs := querySet(r, keys, limit)
+		for j := 0; j < 80 && j < len(keys); j++ {
+			qs = append(qs, keys[r.Intn(len(keys))])
+		}
+		sort.Strings(qs)
+		return uniq(qs)
+	}
+	nSpec := 4
+	if !quick {
+		nSpec = 24
+	}
+	for i := 0; i < nSpec; i++ {
+		switch i % 4 {
+		case 0:
+			c := bigMimicCase(r, "i64")
+			emit(c.Keys, []int{1, 2, 3}[r.Intn(3)], withKeys(c.Keys, 150))
+			m.class("special:bigmimic")
+		case 1:
+			c := dedupBigCase(r, "i64")
+			// one block per run of equal values
+			offs := make([]int64, len(c.Keys))
+			o := int64(r.Intn(1000))
+			for j := range c.Keys {
+				if j == 0 || string(c.Vals[j]) != string(c.Vals[j-1]) {
+					o += int64(1 + r.Intn(5000))
+				}
+				offs[j] = o
+			}
+			explicitOffs = offs
+			emit(c.Keys, 0, withKeys(c.Keys, 150))
+			explicitOffs = nil
+			m.class("special:dedupbig")
+		case 2:
+			keys := []string{""}
+			for b := 0; b < 256; b++ {
+				keys = append(keys, string([]byte{byte(b)}))
+				if b%29 == 0 {
+					keys = append(keys, string([]byte{byte(b), byte(r.Intn(256))}))
+				}
+			}
+			sort.Strings(keys)
+			emit(uniq(keys), []int{1, 4}[r.Intn(2)], withKeys(keys, 200))
+			m.class("special:full-257")
+		case 3:
+			fam := boundaryFamilies[r.Intn(len(boundaryFamilies))]
+			keys := seekBoundary(r, fam, i/4+int(seed), [4]int{2, 2, 2, 2})
+			if keys != nil {
+				qs := withKeys(keys, 100)
+				qs = append(qs, keys[len(keys)-1], keys[len(keys)-1]+"\x00")
+				sort.Strings(qs)
+				emit(keys, 1, uniq(qs))
+				m.class("special:boundary")
+			}
+		}
 	}
 	// long shared runs between branch points (steps in the upper half of the 16-bit counter)
 	for _, L := range []int{16000, 16500, 30000} {
